@@ -11,7 +11,7 @@ from vlib import BUILD, Report, log, run_jobs, write_evidence
 
 
 def run_protocol_check(prop, tier, runs, rule_prefix, assumptions, level="model_checking", engine="enum",
-                       extra_cov=None):
+                       extra_cov=None, post=None, sum_keys=("scans", "fault_runs", "allocating_transitions", "reference_states")):
     """runs: list of dict(binary=path, args=[...], label=str, env={}).  Each run
     gets --out; results are summed."""
     t0 = time.time()
@@ -20,23 +20,54 @@ def run_protocol_check(prop, tier, runs, rule_prefix, assumptions, level="model_
     jobs = []
     for i, r in enumerate(runs):
         out = os.path.join(tmpdir, "%d.json" % i)
-        jobs.append(dict(cmd=[r["binary"]] + r["args"] + ["--out", out], env=r.get("env", {}), out=out, run=r,
-                         timeout=r.get("timeout", 7200)))
+        prog = os.path.join(tmpdir, "%d.prog" % i)
+        cmd = [r["binary"]] + r["args"] + ["--out", out]
+        if r.get("crash_property"):
+            cmd += ["--progress", prog]
+        jobs.append(dict(cmd=cmd, env=r.get("env", {}), out=out, prog=prog, run=r, timeout=r.get("timeout", 7200)))
     results = run_jobs(jobs, nproc=runs[0].get("parallel", 1) if runs else 1)
     tot = dict(evaluations=0, distinct_nontrivial=0, states=0, transitions=0, traces=0)
     exhaustive = True
+    all_results, extra_sums = {}, {}
     samples, parts, rules = [], [], []
     for (j, rc, so, se) in results:
         r = j["run"]
         if rc != 0 or not os.path.exists(j["out"]):
-            report.infra_errors.append("%s: runner ended with %r: %s" % (r["label"], rc, (se or "")[-800:]))
             exhaustive = False
+            crash = r.get("crash_property")
+            hist = None
+            if crash and os.path.exists(j["prog"]):
+                hist = open(j["prog"], "rb").read().split(b"\0")[0].decode(errors="replace")
+            vprop = crash(rc, se or "") if (crash and hist) else None
+            if vprop is None:
+                report.infra_errors.append("%s: runner ended with %r: %s" % (r["label"], rc, (se or "")[-800:]))
+                continue
+            # a crash is believed only if replaying the recorded history crashes the same way twice
+            ok = True
+            for k in range(2):
+                (jj, rc2, so2, se2), = run_jobs([dict(cmd=[r["binary"]] + r["args"] + ["--replay-arg", hist, "--out", os.path.join(tmpdir, "rp.json")],
+                                                     env=r.get("env", {}), timeout=600)], nproc=1)
+                if rc2 != rc:
+                    ok = False
+            if not ok:
+                report.infra_errors.append("%s: crash (status %r) after history [%s] did not reproduce on replay: %s" % (r["label"], rc, hist, (se or "")[-400:]))
+                continue
+            sig = "%s/crash-%s" % (vprop, rc)
+            what = "runner ended with status %r while executing history [%s]: %s" % (rc, hist, (se or "")[-600:].replace("\n", " | "))
+            payload = dict(engine=engine, run=r["label"], runner_source=r.get("source"), build_spec=r.get("build_spec"),
+                           args=r["args"], replay_arg=hist, property=vprop, signature=sig, what=what, exit_status=rc)
+            report.violation(vprop, sig, what, payload, r["label"] + "-crash")
             continue
         res = json.load(open(j["out"]))
+        all_results[r["label"]] = res
+        for k in sum_keys:
+            if k in res:
+                extra_sums[k] = extra_sums.get(k, 0) + int(res[k])
         for k, src in (("evaluations", "evaluations"), ("distinct_nontrivial", "distinct_nontrivial"), ("states", "states"),
                        ("transitions", "transitions"), ("traces", "traces_validated_against_impl")):
             tot[k] += int(res.get(src, 0))
-        exhaustive = exhaustive and bool(res.get("exhaustive", False))
+        if not r.get("signature_suffix"):  # known-finding universes stop at their first violations by design
+            exhaustive = exhaustive and bool(res.get("exhaustive", False))
         for s in res.get("samples", [])[:3]:
             if len(samples) < 6:
                 samples.append(dict(run=r["label"], case=s))
@@ -52,7 +83,8 @@ def run_protocol_check(prop, tier, runs, rule_prefix, assumptions, level="model_
             if sig in seen:
                 continue
             seen.add(sig)
-            vprop = v.get("property", prop)
+            rsig = sig + r.get("signature_suffix", "")
+            vprop = r.get("property_override") or v.get("property", prop)
             # confirm by two fresh replays
             ok = True
             for k in range(2):
@@ -72,9 +104,12 @@ def run_protocol_check(prop, tier, runs, rule_prefix, assumptions, level="model_
                 report.infra_errors.append("%s: violation %s did not reproduce on replay (%s)" % (r["label"], sig, v.get("what", "")[:200]))
                 continue
             payload = dict(engine=engine, run=r["label"], runner_source=r.get("source"), build=r.get("build"),
-                           args=r.get("replay_args", r["args"]), replay_arg=v["replay_arg"], property=vprop, signature=sig,
+                           build_spec=r.get("build_spec"),
+                           args=r.get("replay_args", r["args"]), replay_arg=v["replay_arg"], property=vprop, signature=rsig,
                            what=v.get("what"), detail=v.get("detail"))
-            report.violation(vprop, sig, v.get("what", ""), payload, r["label"] + "-" + sig)
+            report.violation(vprop, rsig, v.get("what", ""), payload, r["label"] + "-" + sig)
+    if post:
+        post(all_results, report)
     shutil.rmtree(tmpdir, ignore_errors=True)
     wall = time.time() - t0
     if not samples:
@@ -84,8 +119,9 @@ def run_protocol_check(prop, tier, runs, rule_prefix, assumptions, level="model_
                     distinct_nontrivial=tot["distinct_nontrivial"],
                     rule=rule_prefix + " " + " | ".join(rules), samples=samples, exhaustive=exhaustive and not report.infra_errors,
                     parts=parts)
+    coverage.update(extra_sums)
     if extra_cov:
-        coverage.update(extra_cov)
+        coverage.update(extra_cov() if callable(extra_cov) else extra_cov)
     nviol = len(report.violations)
     write_evidence(prop, tier, level, coverage, wall, nviol, assumptions)
     log("%s %s: %d evaluations, %d states, %.1fs, %d violation(s), exhaustive=%s" %
